@@ -101,6 +101,27 @@ func (g *Gen) restoreStable(before State) {
 		ref := g.term(fv).S
 		g.restoreValue(before, ref, et, 0)
 	}
+	// locals of this function that live on the heap only because a nested closure reads them: nobody but
+	// this function writes them, so a callee cannot change them
+	for v := range g.vals {
+		al, ok := v.(*ssa.Alloc)
+		if !ok || !al.Heap || al.Parent() != g.fn {
+			continue
+		}
+		st, seen := g.stableLoc[al]
+		if !seen {
+			st = addrUsesOK(al, true, 0)
+			g.stableLoc[al] = st
+		}
+		if !st {
+			continue
+		}
+		et := al.Type().Underlying().(*types.Pointer).Elem()
+		if _, isArr := et.Underlying().(*types.Array); isArr {
+			continue
+		}
+		g.restoreValue(before, g.term(al).S, et, 0)
+	}
 }
 
 func (g *Gen) restoreValue(before State, ref string, t types.Type, depth int) {
